@@ -12,31 +12,35 @@ Here: `Licensed1` / `AllLicensed1` (`Spec/WriteSet1.lean`) = `Licensed` with ANY
 allowed.  The crate never reads copy 2; so everything that matters is stated AS READ THROUGH COPY 1 — which is what
 `nextOf` / `Chain` do —, on the directory slots and on the data clusters:
 
-* `call_licensed_without_mirror` — from `VolInvL` (lost chains, NO `Mirror`): one covered call under whatever is scheduled, a
-  device failure falling anywhere but inside `write` / `make_dir_in_dir` (`classL`): its writes are `AllLicensed1` by a licence
-  `LicenceFor` describes in the state the call is issued in (the C04 vocabulary, unchanged), and the medium afterwards is the
-  medium before with these writes applied.
-* `others_intact_history_M_partial` — along a covered history under any schedule, device failures falling in calls of
-  `classM` (every call but `write`, `make_dir_in_dir` and a truncating open): there is a list of licences, one per call, each
-  described in the state its call is issued in, such that after EVERY prefix an object — slot, chain — that none of the
-  licences so far names has the same slot bytes, IS STILL THE CHAIN of its first cluster (read through copy 1) and holds the
-  same bytes.  No `Mirror` anywhere.
+* `call_licensed_without_mirror` — from `VolInvL` (lost chains, NO `Mirror`): one covered call under whatever is scheduled,
+  WHATEVER device call of it fails (all 24 operations): its writes are `AllLicensed1` by a licence `LicenceFor` describes in
+  the state the call is issued in (the C04 vocabulary, unchanged), and the medium afterwards is the medium before with these
+  writes applied.
+* `others_intact_history_M_partial` — along a covered history under any schedule, device failures falling anywhere but inside
+  a truncating `open_file_in_dir` (`classC`): there is a list of licences, one per call, each described in the state its call
+  is issued in, such that after EVERY prefix an object — slot, chain — that none of the licences so far names has the same
+  slot bytes, IS STILL THE CHAIN of its first cluster (read through copy 1) and holds the same bytes.  No `Mirror` anywhere.
 * `medium_mounts_history_M_partial` — and the medium still mounts after every prefix.
 
-Proof: the whole C04 licence argument redone for `Licensed1` from `Ready` alone (`Lemmas/WriteSet1*.lean`, 14 files generated
+Proof: the whole C04 licence argument redone for `Licensed1` from `Ready` alone (`Lemmas/WriteSet1*.lean`, 13 files generated
 from `Lemmas/WriteSet*.lean` by `tools/gen1.py` and fixed by hand: the second write of `update_fat` is licensed outright, every
 `Mirror` pre- and post-condition is gone) and from the invariant WITH LOST CHAINS (`Lemmas/LicX*.lean`: `step_callOK` for all
-24 operations from `VolInvX X`); a failing call of `classL` writes a PREFIX of the fault-free call's writes
-(`Lemmas.FaultInv.step_faulted`); frame: a byte no licence covers and OUTSIDE COPY 2 is unchanged
-(`Lemmas/LicXFrame.allLicensed1_frame`) — slots lie in the root / data region, the entries `Chain` reads lie in copy 1
-(`not_fat2_fatBlock`), data lies in the data region; mount reads block 0, the boot sector and the info sector only
-(`allLicensed1_prefix`).
+24 operations from `VolInvX X`).  Under a schedule: a failing `delete` / `open` / `close_file` / `flush` / `close_volume`
+writes a PREFIX of the fault-free call's writes (`FaultPre.MPre`); so does a failing `write` — which reports a failed
+`alloc_cluster` as `DiskFull` and hands failures of `find_data_on_disk` on as inner outcomes, hence the weaker `MPw` of
+`Lemmas/LicXWPfx.lean`, proved in `Lemmas/LicXWriteP.write_mpw` —; a failing `make_dir_in_dir` writes a prefix of the
+fault-free writes FOLLOWED, when the entry in the parent could not be written, by (a prefix of) the clean-up
+`free_cluster_chain(new cluster)`, which is licensed too — the FAT entry of the new cluster is in every `mkdir` licence, and
+the new cluster is a chain nothing refers to at that point, since a `write_new_directory_entry` that reports an error has not
+written the entry (`Lemmas/LicXMkdirF.makeDir_licF`, `Lemmas/LicXMkdirApi.mkdir_licF`).  Frame: a byte no licence covers and
+OUTSIDE COPY 2 is unchanged (`Lemmas/LicXFrame.allLicensed1_frame`) — slots lie in the root / data region, the entries `Chain`
+reads lie in copy 1 (`not_fat2_fatBlock`), data lies in the data region; mount reads block 0, the boot sector and the info
+sector only (`allLicensed1_prefix`).
 
-WHY `_partial` (TARGET: no restriction on where device calls fail): a failed `write` / `make_dir_in_dir` is not a truncated
-fault-free run (`write` hands failures on as inner outcomes, `make_dir_in_dir` cleans up), so "its writes are a prefix of
-licensed writes" needs the stage-by-stage analysis of `Lemmas/FaultXWrite*`, `FaultXMkdir*` once more WITH the licences; and a
-failure inside a truncating open leaves only `FaultInvE` (`Props/C11HistT`).  Fault-FREE calls of all kinds — `write`,
-`make_dir_in_dir`, truncating opens included — may be interleaved freely, also after the copies have come to differ.
+WHY `_partial` (TARGET: no restriction on where device calls fail): ONE call is licensed whatever fails
+(`call_licensed_without_mirror` has no restriction); but the HISTORY theorems need the invariant `VolInvL` before every call,
+and a device failure inside a TRUNCATING `open_file_in_dir` leaves only the weak `FaultInvE` (`Props/C11HistT`): the histories
+here are those of `Props.C11HistE.history_under_faults_E_partial` (`FailsOnlyIn classC`).
 -/
 import Sdmmc.Spec.WriteSet1
 import Sdmmc.Lemmas.LicXFault
@@ -51,40 +55,17 @@ open Sdmmc.Props.C11HistB (nonTruncating)
 open Sdmmc.Props.C11HistE (classC classC_iff invFE_iff)
 open Sdmmc.Lemmas.WriteSetInv (LicenceFor NotNamed)
 
-/-- The calls whose failed run is a truncated fault-free run or writes nothing: all but `write` and `make_dir_in_dir`. -/
-def classL : Op → Bool
-  | .mkdir _ _ | .write _ _ => false
-  | _ => true
-
-/-- The calls in which a device failure is covered here: all but `write`, `make_dir_in_dir` and a truncating
-`open_file_in_dir`. -/
-def classM : Op → Bool
-  | .openFile _ _ mode => nonTruncating mode
-  | .mkdir _ _ | .write _ _ => false
-  | _ => true
-
-theorem classL_iff (op : Op) : classL op = Lemmas.VolX.Lic.classL op := by cases op <;> rfl
-
-theorem classM_iff (op : Op) : classM op = true ↔ classC op = true ∧ classL op = true := by
-  cases op <;> simp [classM, classC, classL]
-
-theorem failsOnlyIn_iff : ∀ (ops : List Op) (s : Mgr),
-    FailsOnlyIn classM s ops ↔ Lemmas.VolX.Lic.FailsOnlyInCL s ops
-  | [], _ => Iff.rfl
-  | op :: ops, s => and_congr (by rw [classM_iff, classC_iff, classL_iff]) (failsOnlyIn_iff ops _)
-
 /-! ### One call -/
 
 /-- **`call_licensed_without_mirror`.**  From `VolInvL` (lost chains; nothing is asked of FAT copy 2), one covered call
-under whatever is scheduled, a device failure falling anywhere but inside `write` / `make_dir_in_dir`: there is a licence
-`LicenceFor` describes in the state the call is issued in by which every device write of the call is `Licensed1`, and the
-medium afterwards is the medium before with exactly these writes applied. -/
+under whatever is scheduled, WHATEVER device call of it fails: there is a licence `LicenceFor` describes in the state the
+call is issued in by which every device write of the call is `Licensed1`, and the medium afterwards is the medium before with
+exactly these writes applied. -/
 theorem call_licensed_without_mirror {s : Mgr} {gh : Ghost} {X : List (List Nat)} (hI : VolInvL s gh X) (op : Op)
-    (hc : Covered s op) (hf : (step s op).1.dev.failed ≠ s.dev.failed → classL op = true) :
+    (hc : Covered s op) :
     ∃ L, LicenceFor gh s.files s.dirs s.dev.disk op L ∧ AllLicensed1 gh.vol s.dev.disk L (step s op).2.writes ∧
       ∀ i, (step s op).1.dev.disk.get i = (s.dev.disk.applyWrites (step s op).2.writes).get i :=
   Lemmas.VolX.Lic.step_lic1 (Lemmas.FaultX.volInvL_iff.1 hI) op ((C11Inv.covered_iff s op).1 hc)
-    (fun h => by rw [← classL_iff]; exact hf h)
 
 /-- What `Licensed1` still says about one write: it goes to the FAT, the root directory region, the data region or the
 info sector of the volume — inside the partition, never block 0, never the boot sector. -/
@@ -99,16 +80,41 @@ theorem licensed1_write_frame {v : FatVolume} {d : Disk} {L : Licence} {w : Nat 
     (hn : ¬ Lemmas.WriteSetInv.Covers v L w.1 i) (h2 : ¬ IsFat2Block v w.1) : w.2.getD i 0 = (d.get w.1).getD i 0 :=
   Lemmas.VolX.Lic.licensed1_frame h hn h2
 
+/-- **One call, an object it does not name**: slot bytes, chain read through copy 1, chain bytes are the same after the call,
+whatever device call of it failed. -/
+theorem others_intact_after_any_call {s : Mgr} {gh : Ghost} {X : List (List Nat)} (hI : VolInvL s gh X) (op : Op)
+    (hc : Covered s op) :
+    ∃ L, LicenceFor gh s.files s.dirs s.dev.disk op L ∧
+      ∀ (sb so c : Nat) (cs : List Nat), Chain gh.vol s.dev.disk c cs →
+        (regionOf gh.vol sb = .root ∨ regionOf gh.vol sb = .data) → so % 32 = 0 → NotNamed gh.vol L sb so cs →
+        slice ((step s op).1.dev.disk.get sb) so 32 = slice (s.dev.disk.get sb) so 32 ∧
+        Chain gh.vol (step s op).1.dev.disk c cs ∧
+        chainBytes gh.vol (step s op).1.dev.disk cs = chainBytes gh.vol s.dev.disk cs := by
+  obtain ⟨L, hlic, hall, hdisk⟩ := call_licensed_without_mirror hI op hc
+  have hIx := Lemmas.FaultX.volInvL_iff.1 hI
+  refine ⟨L, hlic, fun sb so c cs hch hsreg hso hnn => ?_⟩
+  have hsp := Lemmas.WriteSetInv.spares_of_avoids hI.med.geom (Lemmas.ChainL.chain_inRange hch) hsreg hso
+    (Lemmas.WriteSetInv.avoids_of (Lemmas.VolX.Lic.licenceFor_wf hIx hlic) hnn)
+  obtain ⟨h1, h2, h3⟩ := Lemmas.VolX.Lic.spared1_unchanged hI.med.geom hI.med.blocksOK hall sb so c cs hch hsreg hsp
+  refine ⟨by rw [hdisk sb]; exact h1, ?_, ?_⟩
+  · exact Lemmas.ForestBase.chain_transfer h2 rfl fun x _ => by
+      refine Lemmas.ForestBase.nextOf_congr rfl ?_
+      unfold fatRaw
+      rw [hdisk]
+  · rw [← h3]
+    exact Lemmas.WriteRefines.chainBytes_congr gh.vol _ _ cs fun x _ j _ => hdisk _
+
 /-! ### Histories -/
 
 /-- **`others_intact_history_M_partial`** (TARGET: the same with no restriction `hf`).  NO `Mirror`.  A covered history
-under any schedule from `VolInvLE` (lost chains allowed), device failures falling in calls of `classM` only.  There is a list
-`Ls` of licences, one per call, each a licence `LicenceFor` describes for its call in the state that call is issued in (which
-satisfies `VolInvL`), such that after EVERY prefix `k`: every object of the start medium — slot at byte `so` of block `sb`,
-chain `cs` from cluster `c` (read through FAT copy 1, as `Chain` does) — that none of the first `k` licences names has the
-same 32 slot bytes, is still the chain of `c` read through copy 1, and holds the same bytes. -/
+under any schedule from `VolInvLE` (lost chains allowed), device failures falling anywhere but inside a truncating
+`open_file_in_dir`.  There is a list `Ls` of licences, one per call, each a licence `LicenceFor` describes for its call in
+the state that call is issued in (which satisfies `VolInvL`), such that after EVERY prefix `k`: every object of the start
+medium — slot at byte `so` of block `sb`, chain `cs` from cluster `c` (read through FAT copy 1, as `Chain` does) — that none
+of the first `k` licences names has the same 32 slot bytes, is still the chain of `c` read through copy 1, and holds the same
+bytes. -/
 theorem others_intact_history_M_partial (ops : List Op) {s : Mgr} {gh : Ghost} {X : List (List Nat)} (hI : VolInvLE s gh X)
-    (hc : CoveredRun s ops) (hf : FailsOnlyIn classM s ops) :
+    (hc : CoveredRun s ops) (hf : FailsOnlyIn classC s ops) :
     ∃ Ls : List Licence, Ls.length = ops.length ∧
       (∀ L, L ∈ Ls → ∃ k op gh' X', ops[k]? = some op ∧ VolInvL (run s (ops.take k)).1 gh' X' ∧ SameGeom gh.vol gh'.vol ∧
         LicenceFor gh' (run s (ops.take k)).1.files (run s (ops.take k)).1.dirs (run s (ops.take k)).1.dev.disk op L) ∧
@@ -119,7 +125,7 @@ theorem others_intact_history_M_partial (ops : List Op) {s : Mgr} {gh : Ghost} {
         Chain gh.vol (run s (ops.take k)).1.dev.disk c cs ∧
         chainBytes gh.vol (run s (ops.take k)).1.dev.disk cs = chainBytes gh.vol s.dev.disk cs := by
   obtain ⟨Ls, hR, _⟩ := Lemmas.VolX.Lic.runLic1_of gh.vol ops (invFE_iff.2 ⟨gh, X, hI, SameGeom.refl _⟩) (SameGeom.refl _)
-    ((C11Hist.coveredRun_iff ops s).1 hc) ((failsOnlyIn_iff ops s).1 hf)
+    ((C11Hist.coveredRun_iff ops s).1 hc) ((C11HistE.failsOnlyIn_iff ops s).1 hf)
   refine ⟨Ls, Lemmas.VolX.Lic.runLic1_length hR, fun L hL => ?_, ?_⟩
   · obtain ⟨k, op, gh', X', h1, h2, h3, h4⟩ := Lemmas.VolX.Lic.runLic1_nth hR L hL
     exact ⟨k, op, gh', X', h1, Lemmas.FaultX.volInvL_iff.2 h2, h3, h4⟩
@@ -130,13 +136,27 @@ theorem others_intact_history_M_partial (ops : List Op) {s : Mgr} {gh : Ghost} {
 /-- **`medium_mounts_history_M_partial`** (same hypotheses; NO `Mirror`).  If the start medium mounts (partition `idx`) to a
 record with the geometry of the volume, so does the medium after every prefix. -/
 theorem medium_mounts_history_M_partial (ops : List Op) {s : Mgr} {gh : Ghost} {X : List (List Nat)} (hI : VolInvLE s gh X)
-    (hc : CoveredRun s ops) (hf : FailsOnlyIn classM s ops) (k : Nat) (idx : Nat) (vm : FatVolume)
+    (hc : CoveredRun s ops) (hf : FailsOnlyIn classC s ops) (k : Nat) (idx : Nat) (vm : FatVolume)
     (hmt : mountPure (s.dev.disk.get 0) idx s.dev.disk.get = .ok vm) (hsg : SameGeom vm gh.vol) :
     ∃ w, mountPure ((run s (ops.take k)).1.dev.disk.get 0) idx (run s (ops.take k)).1.dev.disk.get = .ok w ∧
       SameGeom gh.vol w := by
   obtain ⟨Ls, hR, _⟩ := Lemmas.VolX.Lic.runLic1_of gh.vol ops (invFE_iff.2 ⟨gh, X, hI, SameGeom.refl _⟩) (SameGeom.refl _)
-    ((C11Hist.coveredRun_iff ops s).1 hc) ((failsOnlyIn_iff ops s).1 hf)
+    ((C11Hist.coveredRun_iff ops s).1 hc) ((C11HistE.failsOnlyIn_iff ops s).1 hf)
   exact Lemmas.VolX.Lic.runLic1_mounts hI.inv.med.geom (Lemmas.VolX.Lic.runLic1_take hR k) hI.inv.med.blocksOK idx vm hmt hsg
+
+/-- **A failed truncating open does not hurt the other objects either** (one call; the history theorems stop there because
+the INVARIANT is weak afterwards, not because of the licence): combined with `Props.C11HistT.history_under_faults_T_partial`,
+along any covered history under any schedule the objects no call names are intact up to and including the first failure
+inside a truncation. -/
+theorem others_intact_after_failed_truncation {s : Mgr} {gh : Ghost} {X : List (List Nat)} (hI : VolInvL s gh X) (dir : Nat)
+    (name : List Nat) (mode : Mode) (hname : NameOK name) :
+    ∃ L, LicenceFor gh s.files s.dirs s.dev.disk (.openFile dir name mode) L ∧
+      ∀ (sb so c : Nat) (cs : List Nat), Chain gh.vol s.dev.disk c cs →
+        (regionOf gh.vol sb = .root ∨ regionOf gh.vol sb = .data) → so % 32 = 0 → NotNamed gh.vol L sb so cs →
+        slice ((step s (.openFile dir name mode)).1.dev.disk.get sb) so 32 = slice (s.dev.disk.get sb) so 32 ∧
+        Chain gh.vol (step s (.openFile dir name mode)).1.dev.disk c cs ∧
+        chainBytes gh.vol (step s (.openFile dir name mode)).1.dev.disk cs = chainBytes gh.vol s.dev.disk cs :=
+  others_intact_after_any_call hI (.openFile dir name mode) hname
 
 /-! ### Non-vacuity; the FAT copies really come to differ, and a fault-free call then changes copy 2 beyond its licence -/
 
@@ -147,24 +167,38 @@ open Sdmmc.Props.C11Hist.Example (nameA isDeviceError)
 open Sdmmc.Props.C11HistB.Example (ok_A ok_D ok_F)
 
 /-- On the example volume with `E.DAT` open and modified (`mgr0`): `delete A.TXT` — device call 4, the write of FAT COPY 2
-after copy 1 (cluster 2 terminated), FAILS: the copies differ from here on —; `write` to `E.DAT`; `close_file` of it — its
-entry write (device call 8) FAILS —; create `F`; `make_dir_in_dir D` (fault-free). -/
+after copy 1 (cluster 2 terminated), FAILS: the copies differ from here on —; `write` of 600 bytes to `E.DAT` (needs a second
+cluster: device call 9, the write of FAT copy 2 inside `alloc_cluster`, FAILS — `write` answers `DiskFull`, the new cluster
+8 is lost); `close_file`; create `F`; `make_dir_in_dir D` — device call 19, the write of the entry in the parent, FAILS: the
+clean-up frees the new cluster 9 again. -/
 def opsM : List Op :=
-  [.delete 2 nameA, .write 4 [9, 9, 9], .closeFile 4, .openFile 2 [70] .ReadWriteCreate, .mkdir 2 [68]]
-def schedM : List Nat := [4, 8]
+  [.delete 2 nameA, .write 4 (List.replicate 600 7), .closeFile 4, .openFile 2 [70] .ReadWriteCreate, .mkdir 2 [68]]
+def schedM : List Nat := [4, 9, 19]
 /-- The state after the first `k` calls. -/
 def sM (k : Nat) : Mgr := (run (withFaults schedM mgr0) (opsM.take k)).1
 
 theorem opsM_covered : CoveredRun (withFaults schedM mgr0) opsM := ⟨ok_A, trivial, trivial, ok_F, ok_D, trivial⟩
 
-/-- The two failures fall in `delete` and `close_file` (both `classM`); `write` and `make_dir_in_dir` run fault-free. -/
+/-- The three failures fall in `delete`, in `write` and in `make_dir_in_dir`. -/
 theorem opsM_failures :
-    (List.range 5).map (fun k => (classM (opsM.getD k .hasOpen),
-      decide ((step (sM k) (opsM.getD k .hasOpen)).1.dev.failed ≠ (sM k).dev.failed))) =
-    [(true, true), (false, false), (true, true), (true, false), (false, false)] := by decide +kernel
+    (List.range 5).map (fun k => decide ((step (sM k) (opsM.getD k .hasOpen)).1.dev.failed ≠ (sM k).dev.failed)) =
+    [true, true, false, false, true] := by decide +kernel
 
-theorem opsM_classM : FailsOnlyIn classM (withFaults schedM mgr0) opsM :=
-  ⟨fun _ => rfl, fun h => absurd (by decide +kernel) h, fun _ => rfl, fun _ => rfl, fun h => absurd (by decide +kernel) h, trivial⟩
+theorem opsM_classC : FailsOnlyIn classC (withFaults schedM mgr0) opsM :=
+  ⟨fun _ => rfl, fun _ => rfl, fun _ => rfl, fun _ => rfl, fun _ => rfl, trivial⟩
+
+/-- The failed `write` (a device failure reported as `DiskFull`) wrote a PREFIX of what the fault-free `write` writes from
+the same state: blocks `[8, 1]` of `[8, 1, 2, 1, 2, 10]`.  The failed `make_dir_in_dir` wrote a prefix — `[1, 2, 11]` of
+`[1, 2, 11, 3]`: FAT copies 1 and 2, the first block of the new directory; not the entry in the root directory — FOLLOWED by
+its clean-up `[1, 2]` (the FAT entry of the new cluster, in both copies). -/
+theorem failed_write_and_mkdir :
+    (step (sM 1) (opsM.getD 1 .hasOpen)).2.writes.map (·.1) = [8, 1] ∧
+    (step (clearFaults (sM 1)) (opsM.getD 1 .hasOpen)).2.writes.map (·.1) = [8, 1, 2, 1, 2, 10] ∧
+    (match (step (sM 1) (opsM.getD 1 .hasOpen)).2.result with | .err .DiskFull => true | _ => false) = true ∧
+    (step (sM 4) (opsM.getD 4 .hasOpen)).2.writes.map (·.1) = [1, 2, 11, 1, 2] ∧
+    (step (clearFaults (sM 4)) (opsM.getD 4 .hasOpen)).2.writes.map (·.1) = [1, 2, 11, 3] ∧
+    isDeviceError (step (sM 4) (opsM.getD 4 .hasOpen)).2.result = true := by
+  decide +kernel
 
 /-- The theorems at this history. -/
 theorem opsM_others_intact :
@@ -174,28 +208,32 @@ theorem opsM_others_intact :
         (∀ L, L ∈ Ls.take k → NotNamed vol16 L sb so cs) →
         slice ((sM k).dev.disk.get sb) so 32 = slice (mgr0.dev.disk.get sb) so 32 ∧
         Chain vol16 (sM k).dev.disk c cs ∧ chainBytes vol16 (sM k).dev.disk cs = chainBytes vol16 mgr0.dev.disk cs :=
-  let ⟨Ls, h1, _, h3⟩ := others_intact_history_M_partial opsM (C11HistT.Example.mgr0_volInvLE schedM) opsM_covered opsM_classM
+  let ⟨Ls, h1, _, h3⟩ := others_intact_history_M_partial opsM (C11HistT.Example.mgr0_volInvLE schedM) opsM_covered opsM_classC
   ⟨Ls, h1, h3⟩
 
-/-- **The FAT copies differ** after the failed `delete` (entry of cluster 2: end-of-chain in copy 1, still `3` in copy 2) —
-and the fault-free `make_dir_in_dir` at the end, whose licence names the FAT entry of the NEW cluster 8 only, writes the whole
-sector of copy 1 to copy 2: the entry of cluster 2 in COPY 2 changes under it.  (Why clause (a) of `Licensed` cannot be kept
-for copy 2 once the copies differ, and `Licensed1` leaves copy 2 alone.) -/
+/-- **The FAT copies differ** after the failed `delete` (entry of cluster 2: end-of-chain in copy 1, still `3` in copy 2),
+more so after the failed `write` (entry of cluster 8) — and the `make_dir_in_dir` at the end, whose licence names the FAT
+entry of the NEW cluster 9 only, writes the whole sector of copy 1 to copy 2: the entries of clusters 2 and 8 in COPY 2 change
+under it.  (Why clause (a) of `Licensed` cannot be kept for copy 2 once the copies differ, and `Licensed1` leaves copy 2
+alone.) -/
 theorem copy2_changes_beyond_the_licence :
     (List.range 6).map (fun k =>
       (rawFatEntry .fat16 ((sM k).dev.disk.get 1) 4, rawFatEntry .fat16 ((sM k).dev.disk.get 2) 4,
+       rawFatEntry .fat16 ((sM k).dev.disk.get 1) 16, rawFatEntry .fat16 ((sM k).dev.disk.get 2) 16,
        (sM k).dev.disk.get 1 == (sM k).dev.disk.get 2)) =
-    [(3, 3, true), (65535, 3, false), (65535, 3, false), (65535, 3, false), (65535, 3, false), (65535, 65535, true)] := by
+    [(3, 3, 0, 0, true), (65535, 3, 0, 0, false), (65535, 3, 65535, 0, false), (65535, 3, 65535, 0, false),
+     (65535, 3, 65535, 0, false), (65535, 65535, 65535, 65535, true)] := by
   decide +kernel
 
-/-- What the theorem says, evaluated for two objects no call of the history names — the sub-directory `SUB` (chain `[4]`)
-and `B.BIN` in it (chain `[5]`): the same bytes after every prefix.  And the state at the end: `VolInvL` with the chains of
-`SUB`, `B.BIN`, the new directory `D`, and three lost chains (`A.TXT`'s two clusters, `E.DAT`'s cluster). -/
+/-- What the theorem says, evaluated for an object no call of the history names — `B.BIN` (chain `[5]`): the same bytes
+after every prefix.  And the state at the end: `VolInvL` with the chains of `SUB`, `B.BIN`, `E.DAT`, and three lost chains
+(`A.TXT`'s two clusters, the cluster the failed `write` had allocated); the cluster of the failed `make_dir_in_dir` is free
+again. -/
 theorem opsM_evaluated :
-    (List.range 6).map (fun k => (chainBytes vol16 (sM k).dev.disk [5] == chainBytes vol16 mgr0.dev.disk [5],
-      chainBytes vol16 (sM k).dev.disk [4] == chainBytes vol16 mgr0.dev.disk [4])) = List.replicate 6 (true, true) ∧
-    checkFaultInv (sM 5) { vol := ((sM 5).vols.headD default).vol, G := [[4], [5], [8]], dirs := [(4, 0), (8, 0)] }
-      [[2], [3], [6]] 512 = true := by decide +kernel
+    (List.range 6).map (fun k => chainBytes vol16 (sM k).dev.disk [5] == chainBytes vol16 mgr0.dev.disk [5]) =
+      List.replicate 6 true ∧
+    checkFaultInv (sM 5) { vol := ((sM 5).vols.headD default).vol, G := [[4], [5], [6]], dirs := [(4, 0)] }
+      [[2], [3], [8]] 512 = true := by decide +kernel
 
 end Example
 
